@@ -3297,6 +3297,11 @@ class Session(_SessionClassMethods, EventTarget):
         except exc.NO_STATE as err:
             raise exc.UnmappedInstanceError(instance) from err
 
+        if attribute_names:
+            attribute_names = self._expand_composite_names(
+                state, attribute_names
+            )
+
         self._expire_state(state, attribute_names)
 
         # this autoflush previously used to occur as a secondary effect
@@ -3418,6 +3423,24 @@ class Session(_SessionClassMethods, EventTarget):
             raise exc.UnmappedInstanceError(instance) from err
         self._expire_state(state, attribute_names)
 
+    def _expand_composite_names(
+        self, state: InstanceState[Any], attribute_names: Iterable[str]
+    ) -> List[str]:
+        """add the column attributes that a composite attribute named in
+        attribute_names is made of; the composite value is derived from
+        them and has nothing of its own to expire or load"""
+
+        names = list(attribute_names)
+        composites = state.mapper.composites
+        for name in list(names):
+            if name in composites:
+                names.extend(
+                    key
+                    for key in composites[name]._attribute_keys
+                    if key not in names
+                )
+        return names
+
     def _expire_state(
         self,
         state: InstanceState[Any],
@@ -3425,7 +3448,10 @@ class Session(_SessionClassMethods, EventTarget):
     ) -> None:
         self._validate_persistent(state)
         if attribute_names:
-            state._expire_attributes(state.dict, attribute_names)
+            state._expire_attributes(
+                state.dict,
+                self._expand_composite_names(state, attribute_names),
+            )
         else:
             # pre-fetch the full cascade since the expire is going to
             # remove associations
